@@ -19,6 +19,9 @@ pub enum ReadStep {
     Deliver(u8),
     /// Fail with `ErrorKind::Interrupted`.
     Interrupt,
+    /// Fail with a non-retryable error (`ErrorKind::ConnectionReset`): the call that gets it
+    /// fails if nothing was delivered yet, and returns what it has otherwise.
+    Error,
 }
 
 /// A reader over a byte slice that follows a script of short reads and
@@ -31,6 +34,7 @@ pub struct ScriptReader<'a> {
     pub calls: usize,
     pub interrupts: usize,
     pub short_reads: usize,
+    pub hard_errors: usize,
 }
 
 impl<'a> ScriptReader<'a> {
@@ -43,6 +47,7 @@ impl<'a> ScriptReader<'a> {
             calls: 0,
             interrupts: 0,
             short_reads: 0,
+            hard_errors: 0,
         }
     }
 }
@@ -58,6 +63,10 @@ impl Read for ScriptReader<'_> {
             Some(ReadStep::Interrupt) => {
                 self.interrupts += 1;
                 return Err(std::io::Error::new(std::io::ErrorKind::Interrupted, "scripted EINTR"));
+            }
+            Some(ReadStep::Error) => {
+                self.hard_errors += 1;
+                return Err(std::io::Error::new(std::io::ErrorKind::ConnectionReset, "scripted hard error"));
             }
             Some(ReadStep::Deliver(k)) if asked > 0 => 1 + (k as usize * (asked - 1)) / 255,
             _ => asked,
@@ -167,7 +176,7 @@ pub struct CodecCase {
 }
 
 pub fn read_step() -> impl Strategy<Value = ReadStep> {
-    prop_oneof![3 => any::<u8>().prop_map(ReadStep::Deliver), 1 => Just(ReadStep::Interrupt)]
+    prop_oneof![6 => any::<u8>().prop_map(ReadStep::Deliver), 2 => Just(ReadStep::Interrupt), 1 => Just(ReadStep::Error)]
 }
 
 pub fn method() -> impl Strategy<Value = Method> {
@@ -434,6 +443,10 @@ fn method_name(m: &Method) -> &'static str {
 /// Feeds `plain` to an Encoder as `side` describes, draining as it goes.
 /// `check_stream` enables the prefix / lag observations (C09).
 pub fn run_encoder(plain: &[u8], pre: &[u8], side: &Side, check_stream: bool) -> Result<EncRun, Fail> {
+    // The caller's bytes sit at an address that is 0..15 modulo 16 (a function of the bytes):
+    // borrowed pieces then start anywhere, as they do in the middle of a caller's buffer.
+    let placed = bytespec::Placed::new(plain, bytespec::Placed::misalign_of(plain));
+    let plain = placed.bytes();
     let cuts = bytespec::resolve_cuts(&side.cuts, plain.len(), &plain_interesting(plain));
     let pieces = bytespec::split_at_cuts(plain, &cuts);
     let mut obs = Obs::default();
@@ -505,7 +518,7 @@ pub fn run_encoder(plain: &[u8], pre: &[u8], side: &Side, check_stream: bool) ->
                                 }
                             }
                         }
-                        Err(e) if e.kind() == std::io::ErrorKind::Interrupted && reader.pos == 0 => {
+                        Err(e) if reader.pos == 0 && (e.kind() == std::io::ErrorKind::Interrupted || (reader.hard_errors > 0 && e.kind() == std::io::ErrorKind::ConnectionReset)) => {
                             obs.failed_reads += 1;
                         }
                         Err(e) => {
@@ -588,6 +601,8 @@ pub fn run_decoder(stream: &[u8], side: &Side, check_stream: bool) -> Result<Dec
 /// As [`run_decoder`], with `pre` already in the iovec handed to `Decoder::new_from_iovec`
 /// (the decoded bytes must come after it; the prefix is checked and removed from the result).
 pub fn run_decoder_pre(stream: &[u8], pre: &[u8], side: &Side, check_stream: bool) -> Result<DecRun, Fail> {
+    let placed = bytespec::Placed::new(stream, bytespec::Placed::misalign_of(stream));
+    let stream = placed.bytes();
     let cuts = bytespec::resolve_cuts(&side.cuts, stream.len(), &encoded_interesting(stream));
     let pieces = bytespec::split_at_cuts(stream, &cuts);
     let mut obs = Obs::default();
@@ -653,7 +668,7 @@ pub fn run_decoder_pre(stream: &[u8], pre: &[u8], side: &Side, check_stream: boo
                                 Ok(())
                             }
                         }
-                        Err(e) if e.kind() == std::io::ErrorKind::Interrupted && reader.pos == 0 => {
+                        Err(e) if reader.pos == 0 && (e.kind() == std::io::ErrorKind::Interrupted || (reader.hard_errors > 0 && e.kind() == std::io::ErrorKind::ConnectionReset)) => {
                             obs.failed_reads += 1;
                             let rest = &stream[pos..piece_end];
                             pos = piece_end;
